@@ -1,4 +1,4 @@
-import A2Verif.Lemmas.FsProdosDelR
+import A2Verif.Lemmas.FsProdosSub
 /-!
 # The volume directory after one of its slots has been rewritten
 
@@ -137,7 +137,7 @@ theorem patched_reading {r r3 : Raw} (hinv : Inv r) (v : Vol) (fsL : List LRec) 
       freeUnits := (List.range (hdrTotal r)).filter (freeB buf3), label := v.label } ∧
     readTree r4 (hdrTotal r) = .ok (fs', ch) ∧ hdrTotal r4 = hdrTotal r ∧ hdrBm r4 = hdrBm r ∧
     r4.units.size = r.units.size ∧ ShapeOk r4 ∧ StdGeo r4 2 ∧ PrevOk r4 0 ch ∧
-    dirSlots r4 2 ch = s1 ++ (e', B, k + 1) :: s2 ∧ (∀ y ∈ s1 ++ s2, SlotOk r4 y) ∧
+    dirSlots r4 2 ch = s1 ++ (e', B, k + 1) :: s2 ∧ (∀ y ∈ s1 ++ s2, SlotOk r4 (hdrTotal r4) y) ∧
     (∀ j, j ∉ bmRange (hdrBm r) (nbmOf (hdrTotal r)) → r4.units[j]? = r3.units[j]?) := by
   obtain ⟨hw, hn, hroot, hv, hc, hic, hnd, hchf, h2, h6, h3, hbt, hstv⟩ := root_chain_facts hinv v fsL ch hread htree
   obtain ⟨hsplit, h1, h2', hfs2, hfiles, hdisj, _, hxown, hall, hcnt0⟩ :=
@@ -230,16 +230,34 @@ theorem patched_reading {r r3 : Raw} (hinv : Inv r) (v : Vol) (fsL : List LRec) 
   · rw [hr4, hrd, hv]
     simp only [hlbl]
   · rw [hr4]; exact wbRaw_shape r3 _ _ buf3 hshape hex3 hbs hbok
-  · -- the other slots keep `SlotOk`: a tree entry's master index block is untouched
+  · -- the other slots keep `SlotOk`: their blocks are untouched
+    rw [hp4.hdrTotal]
     intro y hy
     have hym : y ∈ dirSlots r 2 ch := by
       rw [hsplit]
       rcases List.mem_append.mp hy with a | a
       · exact List.mem_append_left _ a
       · exact List.mem_append_right _ (List.mem_cons_of_mem _ a)
-    rcases hroot.slots y hym with h0 | ⟨hst, hua, hcl⟩
-    · exact Or.inl h0
-    · refine Or.inr ⟨hst, hua, ?_⟩
+    have hagy : ∀ j ∈ ((slotRecs 69 r (hdrTotal r) [] 0 y).map (·.1)).flatMap (·.owned), r4.units[j]? = r.units[j]? := by
+      intro j hj
+      obtain ⟨ja, jx⟩ := hdisj y hy j hj
+      have hnb : j ∉ bmRange (hdrBm r) (nbmOf (hdrTotal r)) := by
+        intro hm
+        have hsysj : j ∈ v.sys := by
+          rw [hv]; simp only
+          rw [mem_bmRange] at hm
+          apply List.mem_append_right
+          rw [List.mem_map]; exact ⟨j - hdrBm r, List.mem_range.mpr (by omega), by omega⟩
+        have hndw := (wfB_iff.1 hw).2.1
+        rw [List.nodup_append] at hndw
+        exact hndw.2.2 _ ja _ hsysj rfl
+      rw [hsame _ hnb, hout _ (fun hjc => (hchf _ hjc).2.2.1 ja) (fun hjo => by
+        rcases hOwn _ hjo with a | a
+        · exact a ja
+        · exact jx a)]
+    rcases hroot.slots y hym with (h0 | ⟨hst, hua, hcl⟩) | ⟨hd, hsub⟩
+    · exact Or.inl (Or.inl h0)
+    · refine Or.inl (Or.inr ⟨hst, hua, ?_⟩)
       intro h3'
       obtain ⟨f, _, hgy, hown, _⟩ := slot_file_rec hinv v fsL ch hread htree y hym hst
       have hkeyown : le16 y.1 0x11 ∈ ((slotRecs 69 r (hdrTotal r) [] 0 y).map (·.1)).flatMap (·.owned) := by
@@ -248,23 +266,10 @@ theorem patched_reading {r r3 : Raw} (hinv : Inv r) (v : Vol) (fsL : List LRec) 
         simp only
         rw [if_neg (by omega), if_neg (by omega)]
         exact List.mem_cons_self
-      obtain ⟨ja, jx⟩ := hdisj y hy _ hkeyown
-      have hu : unitAt r4 (le16 y.1 0x11) = unitAt r (le16 y.1 0x11) := by
-        unfold unitAt
-        have hnb : le16 y.1 0x11 ∉ bmRange (hdrBm r) (nbmOf (hdrTotal r)) := by
-          intro hm
-          have hsysj : le16 y.1 0x11 ∈ v.sys := by
-            rw [hv]; simp only
-            rw [mem_bmRange] at hm
-            apply List.mem_append_right
-            rw [List.mem_map]; exact ⟨le16 y.1 0x11 - hdrBm r, List.mem_range.mpr (by omega), by omega⟩
-          have hndw := (wfB_iff.1 hw).2.1
-          rw [List.nodup_append] at hndw
-          exact hndw.2.2 _ ja _ hsysj rfl
-        rw [hsame _ hnb, hout _ (fun hjc => (hchf _ hjc).2.2.1 ja) (fun hjo => by
-          rcases hOwn _ hjo with a | a
-          · exact a ja
-          · exact jx a)]
-      rw [hu]; exact hcl h3'
+      rw [unitAt_congr (hagy _ hkeyown)]; exact hcl h3'
+    · have hact : isAct y = true := by unfold isAct; simp only [ne_eq, decide_eq_true_eq]; omega
+      obtain ⟨z, hz⟩ := hall y hym hact
+      have hgy : slotRecs 69 r (hdrTotal r) [] 0 y = z := by unfold slotRecs; rw [if_pos hact, hz]; rfl
+      refine Or.inr ⟨hd, subOk_congr hd hz hsub (fun j hj => hagy j (by rw [hgy, List.flatMap_map]; exact hj))⟩
 
 end A2Verif.FsProdos
